@@ -64,6 +64,8 @@ class Interposer:
         self.plan = plan or {}
         self.kill = self.plan.get("kill")
         self.kill_mid = bool(self.plan.get("kill_mid"))
+        self.ext_before = self.plan.get("ext_before")      # somebody else rewrites the target just before call k
+        self.ext_text = self.plan.get("ext_text")
         self.faults = {int(k): v for k, v in (self.plan.get("faults") or {}).items()}
         self.log_fd = log_fd
         self.gate = gate                      # callable(writer, record) -> None, blocks until the turn is granted
@@ -162,6 +164,14 @@ class Interposer:
         with self.lock:
             self.records.append(rec)    # global order = order of execution (after the gate)
         self._log("B", rec)
+        if self.ext_before is not None and self.ext_before == k and w == 0:
+            tl.depth += 1
+            try:
+                fd = os.open(self.target, os.O_WRONLY | os.O_TRUNC | os.O_CREAT, 0o644)
+                _o["os.write"](fd, self.ext_text.encode("utf-8"))
+                _o["os.close"](fd)
+            finally:
+                tl.depth -= 1
         if self.kill is not None and self.kill == k and w == self.plan.get("kill_writer", 0):
             if self.kill_mid and mid is not None:
                 tl.depth += 1
@@ -222,16 +232,12 @@ class Interposer:
             ip._patch(P, name, wrapper)
         for name, kind in (("exists", "exists"), ("is_file", "exists"), ("is_dir", "is_dir"), ("is_symlink", "is_symlink"),
                            ("stat", "stat"), ("lstat", "stat"), ("mkdir", "mkdir"), ("read_text", "read_text"),
-                           ("read_bytes", "read_text"), ("unlink", "unlink"), ("touch", "open_w"), ("chmod", "chmod"),
+                           ("read_bytes", "read_text"), ("unlink", "unlink"), ("chmod", "chmod"),
                            ("resolve", "resolve"), ("absolute", "absolute"), ("rmdir", "rmdir"), ("symlink_to", "symlink"),
                            ("hardlink_to", "link"), ("readlink", "readlink")):
             path_method(name, kind)
-        for name in ("write_text", "write_bytes"):
-            orig = getattr(P, name)
-
-            def w_wrapper(self, data, *a, _orig=orig, **kw):
-                return ip.call("write_text", ip.role_of(self), lambda: _orig(self, data, *a, **kw), data=data)
-            ip._patch(P, name, w_wrapper)
+        # Path.write_text / write_bytes / touch and shutil.copy* are NOT wrapped: they are composite and mutating; the
+        # open / write / close calls they make are the numbered calls, so a kill point falls between truncation and write.
         for name in ("rename", "replace"):
             orig = getattr(P, name)
 
@@ -355,15 +361,6 @@ class Interposer:
             return ip.call("mkstemp_ntf", role, lambda: orig_ntf(*a, **kw))
         ip._patch(tempfile, "NamedTemporaryFile", ntf)
 
-        # --- shutil ---
-        for name in ("copy", "copy2", "copyfile", "move", "copyfileobj"):
-            orig = getattr(shutil, name)
-
-            def sh(src, dst, *a, _orig=orig, _name=name, **kw):
-                r1, r2 = ip.role_of(src), ip.role_of(dst)
-                role = None if r1 is None and r2 is None else f"{r1} {r2}"
-                return ip.call("shutil_" + _name, role, lambda: _orig(src, dst, *a, **kw))
-            ip._patch(shutil, name, sh)
         return self
 
     def _open_like(self, do_open, file, mode):
